@@ -303,9 +303,8 @@ def strip_banner(out):
     return strip_log_lines(out)
 
 
-def run_binary_case(sh, st, path, text, prog, inp, klass='run0'):
+def run_binary_case(sh, st, path, text, prog, inp, klass='run0', B=300):
     """the real run::run at level 0 with a step budget vs the reference"""
-    B = 300
     end, m, steps = I.run(prog, inp, max_steps=B, horizon=HORIZON)
     if end == 'unspecified':
         st.inc('cut')
@@ -416,7 +415,24 @@ def list_task(texts):
     return st
 
 
+def scale_task(texts):
+    """long programs (deep stacks, many labels, thousands of steps): lock-step after every command, and the real run"""
+    st = Stats()
+    sh = shim()
+    path = os.path.join(WORK, 'scale-%d.hyeong' % os.getpid())
+    for text in texts:
+        prog = P.parse(text)
+        lockstep(sh, st, text, prog, 'ab\nc', {}, 0, 3000, 'scale')
+        with open(path, 'w', encoding='utf-8') as f:
+            f.write(text)
+        run_binary_case(sh, st, path, text, prog, 'ab\nc', 'run0:scale', B=3000)
+        st.inc('programs')
+    return st
+
+
 def _task(t):
+    if t[0] == 'scale-list':
+        return scale_task(t[1])
     if t[0] == 'curated-list':
         return list_task(t[1])
     if t[0] == 'onestep':
@@ -453,6 +469,16 @@ def run_c01(tier):
     labs = label_programs() + labelflow_family() + bigarith_family()
     for i in range(0, len(labs), 60):
         tasks.append(('curated-list', labs[i:i + 60]))
+    from . import scale
+    sc = scale.onestep_scale(tier)
+    for i in range(0, len(sc), 40):
+        tasks.append(('onestep', 'scale', sc[i:i + 40]))
+    lsc = [(t, 0, {'stacks': {3: c}, 'cur': 3, 'latest': None}, '') for t in scale.label_scale()
+           for c in ([], [Fraction(1), Fraction(256)])]
+    tasks.append(('onestep', 'label', lsc))
+    sp = scale.scale_programs(tier)
+    for i in range(0, len(sp), 4):
+        tasks.append(('scale-list', sp[i:i + 4]))
     cur = curated_programs()
     cin = curated_inputs(2 if tier == 'quick' else 3)
     for name, text in cur:
@@ -472,7 +498,9 @@ def run_c01(tier):
         'scope': {'onestep_cases': {k: len(v) for k, v in cases.items()},
                   'program_alphabet': alpha, 'program_max_len': n, 'programs': st.n.get('programs', 0),
                   'lockstep_traces': st.n.get('traces', 0), 'binary_runs': st.n.get('runs', 0),
-                  'label_pair_programs': len(labs), 'curated_programs': [c[0] for c in cur], 'curated_inputs': len(cin),
+                  'label_pair_programs': len(labs),
+                  'size_ladder': {'onestep_cases': len(sc), 'label_count_products': len(lsc), 'programs': len(sp),
+                                  'step_bound': 3000, 'sizes': scale.LADDER if tier == 'quick' else scale.LADDER_LONG}, 'curated_programs': [c[0] for c in cur], 'curated_inputs': len(cin),
                   'step_bound': MAXSTEPS, 'value_horizon_bits': HORIZON,
                   'paths_cut_unspecified_or_horizon': st.n.get('cut', 0)},
         'distinct_outcomes': sorted(st.sets.get('ends', ())),
@@ -493,7 +521,7 @@ def replay(case):
         path = os.path.join(WORK, 'replay-%d.hyeong' % os.getpid())
         with open(path, 'w', encoding='utf-8') as f:
             f.write(case['prog'])
-        run_binary_case(sh, st, path, case['prog'], prog, case['stdin'])
+        run_binary_case(sh, st, path, case['prog'], prog, case['stdin'], B=case.get('budget', 300))
     if st.violations:
         return st.violations[0].expected, st.violations[0].observed
     return 'agree', 'agree'
